@@ -47,10 +47,82 @@ type inlineFrame struct {
 	Lhs       []ast.Expr
 	Tok       token.Token
 	IsReturn  bool
-	Results   []types.Object // named results of the callee (for bare returns)
+	Results   []types.Object            // named results of the callee (for bare returns)
+	Binds     map[types.Object]ast.Expr // parameter / receiver object → argument expression
 }
 
 var inlineFrames = map[*ast.BlockStmt]*inlineFrame{}
+
+// framesIn lists the frames spliced into fd.
+func framesIn(fd *ast.FuncDecl) []*inlineFrame {
+	var frames []*inlineFrame
+	ast.Inspect(fd.Body, func(n ast.Node) bool {
+		if b, ok := n.(*ast.BlockStmt); ok {
+			if fr := inlineFrames[b]; fr != nil {
+				frames = append(frames, fr)
+			}
+		}
+		return true
+	})
+	return frames
+}
+
+// frameArgRoot follows the parameter bindings of the helpers spliced into fd from an object to the caller's object
+// it was bound to (the object itself when it is not such a parameter). The body of a helper spliced into several
+// functions is shared, so the binding is looked up among the frames inside fd only.
+func frameArgRoot(info *types.Info, fd *ast.FuncDecl, o types.Object) types.Object {
+	frames := framesIn(fd)
+	for hops := 0; hops < 4 && o != nil; hops++ {
+		var arg ast.Expr
+		for _, fr := range frames {
+			if a, ok := fr.Binds[o]; ok {
+				arg = a
+			}
+		}
+		if arg == nil {
+			break
+		}
+		o2 := objOfIdent(info, arg)
+		if o2 == nil {
+			break
+		}
+		o = o2
+	}
+	return o
+}
+
+// frameResultTarget: the variable of fd that receives local (returned by a helper spliced into fd), or local itself.
+func frameResultTarget(info *types.Info, fd *ast.FuncDecl, local types.Object) types.Object {
+	frames := framesIn(fd)
+	for hops := 0; hops < 4; hops++ {
+		next := types.Object(nil)
+		for _, fr := range frames {
+			for i, l := range fr.Lhs {
+				y := objOfIdent(info, l)
+				if y == nil || y == local {
+					continue
+				}
+				ast.Inspect(fr.Block, func(n ast.Node) bool {
+					if _, isLit := n.(*ast.FuncLit); isLit {
+						return false
+					}
+					if b, isB := n.(*ast.BlockStmt); isB && b != fr.Block && inlineFrames[b] != nil {
+						return false
+					}
+					if rs, ok := n.(*ast.ReturnStmt); ok && i < len(rs.Results) && objOfIdent(info, rs.Results[i]) == local {
+						next = y
+					}
+					return true
+				})
+			}
+		}
+		if next == nil {
+			break
+		}
+		local = next
+	}
+	return local
+}
 
 const inlineDepth = 3
 
@@ -60,6 +132,10 @@ func virtualInline(p *Prog) int {
 	n := 0
 	callCount := map[*types.Func]int{} // calls to each new function in the function being processed
 	var process func(fd *ast.FuncDecl, info *types.Info, depth int)
+	// the last top-level statement of the function being processed: a helper called there may contain defers (they
+	// run when the helper returns, which is when the caller returns)
+	var curTail ast.Stmt
+	deferOK := false
 	inlinable := func(info *types.Info, call *ast.CallExpr) (*types.Func, *ast.FuncDecl) {
 		f, ok := calleeObj(info, call).(*types.Func)
 		if !ok || !isNewFunc(f) {
@@ -91,7 +167,7 @@ func virtualInline(p *Prog) int {
 			}
 			return true
 		})
-		if hasDefer {
+		if hasDefer && !deferOK {
 			return nil, nil
 		}
 		return f, fd
@@ -106,7 +182,7 @@ func virtualInline(p *Prog) int {
 		case *ast.ExprStmt:
 			call, _ = ast.Unparen(x.X).(*ast.CallExpr)
 		case *ast.AssignStmt:
-			if len(x.Rhs) == 1 && (x.Tok == token.DEFINE || x.Tok == token.ASSIGN) {
+			if len(x.Rhs) == 1 && (x.Tok == token.DEFINE || x.Tok == token.ASSIGN) && !storesToPlace(x) {
 				call, _ = ast.Unparen(x.Rhs[0]).(*ast.CallExpr)
 				fr.Lhs, fr.Tok = x.Lhs, x.Tok
 			}
@@ -119,7 +195,9 @@ func virtualInline(p *Prog) int {
 		if call == nil {
 			return s
 		}
+		deferOK = s == curTail
 		f, fd := inlinable(info, call)
+		deferOK = false
 		if f == nil {
 			return s
 		}
@@ -162,6 +240,10 @@ func virtualInline(p *Prog) int {
 			}
 			id := &ast.Ident{Name: obj.Name(), NamePos: call.Pos()}
 			info.Defs[id] = obj
+			if fr.Binds == nil {
+				fr.Binds = map[types.Object]ast.Expr{}
+			}
+			fr.Binds[obj] = arg
 			list = append(list, &ast.AssignStmt{Lhs: []ast.Expr{id}, Tok: token.DEFINE, TokPos: call.Pos(), Rhs: []ast.Expr{arg}})
 		}
 		if fd.Recv != nil && len(fd.Recv.List) == 1 && len(fd.Recv.List[0].Names) == 1 {
@@ -195,6 +277,9 @@ func virtualInline(p *Prog) int {
 		fr.Block = &ast.BlockStmt{Lbrace: s.Pos(), List: list, Rbrace: s.End()}
 		inlineFrames[fr.Block] = fr
 		n++
+		if os.Getenv("GRIBILINT_DEBUG_FRAMES") != "" {
+			println("frame:", f.Name(), "at", p.pos(s.Pos()))
+		}
 		return fr.Block
 	}
 	// hoist: a call to a new single-result function nested in the expressions of a simple
@@ -236,7 +321,7 @@ func virtualInline(p *Prog) int {
 						case *ast.ExprStmt:
 							top = ast.Unparen(y.X) == x
 						case *ast.AssignStmt:
-							top = len(y.Rhs) == 1 && ast.Unparen(y.Rhs[0]) == x
+							top = len(y.Rhs) == 1 && ast.Unparen(y.Rhs[0]) == x && !storesToPlace(y)
 						case *ast.ReturnStmt:
 							top = len(y.Results) == 1 && ast.Unparen(y.Results[0]) == x
 						}
@@ -370,7 +455,12 @@ func virtualInline(p *Prog) int {
 			}
 			return true
 		})
-		defer func() { callCount = saved }()
+		savedTail := curTail
+		curTail = nil
+		if len(fd.Body.List) > 0 {
+			curTail = fd.Body.List[len(fd.Body.List)-1]
+		}
+		defer func() { callCount = saved; curTail = savedTail }()
 		var pkg *types.Package
 		if o := info.Defs[fd.Name]; o != nil {
 			pkg = o.Pkg()
@@ -485,4 +575,14 @@ func frameReturnAliases(info *types.Info, obj types.Object) []types.Object {
 		}
 	}
 	return out
+}
+
+// storesToPlace: `x.f = helper()` / `m[k] = helper()` — one result stored into a field or element. The statement is
+// kept (rules look for it) and the call is hoisted into a synthetic local evaluated by a frame just before it.
+func storesToPlace(as *ast.AssignStmt) bool {
+	if len(as.Lhs) != 1 {
+		return false
+	}
+	_, isIdent := ast.Unparen(as.Lhs[0]).(*ast.Ident)
+	return !isIdent
 }
